@@ -52,6 +52,7 @@ theorem finishRun_is_run (log : List Char) (fuel : Nat) (pre cs : List Cmd) (m :
       | exit c => simp only at h ⊢; rw [this.2]; exact h
       | encErr k => simp only at h ⊢; rw [this.2]; exact h
       | unspecified => simp only at h ⊢; rw [this.2]; exact h
+      | inputErr => simp only at h ⊢; rw [this.2]; exact h
 
 /-- **`hyeong run FILE` end to end** (model of main.rs/run.rs/ext.rs over the models of the parser, the optimiser
 and the interpreter): whenever the tool ends on a readable `.hyeong` file, at any level, then after its log
@@ -83,7 +84,7 @@ theorem run_end_to_end (budget fuel level : Nat) (path src stdin : List Char) (o
     obtain ⟨pc, hpc, e⟩ := hc
     subst e
     exact (HyP.C04.kinds_lt_six src pc hpc).2
-  unfold cliRun at h
+  unfold cliRun cliRunLines at h
   simp only [Bool.not_true, Bool.false_eq_true, ↓reduceIte] at h
   by_cases hl : level = 0
   · left
